@@ -372,8 +372,14 @@ func VC_C07_two_method_history() {
 			}
 			live[op] = true
 		} else {
+			// undo through the builder, or through the interface mocker of the family of
+			// handles this epoch used
 			if verifBool(vOpN07[k] + ".cancel") {
-				im.Cancel()
+				if epochVia == 1 {
+					b.Interface(&vSvcA).Cancel()
+				} else {
+					im.Cancel()
+				}
 			} else {
 				b.Reset()
 			}
@@ -406,3 +412,53 @@ func VC_C07_two_method_history() {
 }
 
 func VC_C07x_two_method_history() { vOps07 = 5; VC_C07_two_method_history() }
+
+// VC_C07_overwritten_between: after one method was mocked the program overwrites the
+// variable (nil or a real implementation) without a Reset, then a further method is
+// mocked in the same builder: the variable holds the mock again and both methods reach
+// their replacements.
+func VC_C07_overwritten_between() {
+	vEnv()
+	stub.VerifResetMmap()
+	vSvcA = nil
+	t := reflect.TypeOf(&vSvcA).Elem()
+	b := Create()
+	im := b.Interface(&vSvcA)
+	im.Method("Alpha").Apply(vCbAlpha)
+	if verifBool("overwriteWithImpl") {
+		vSvcA = &vImpl{n: 9}
+	} else {
+		vSvcA = nil
+	}
+	second := verifChoice("second", 2) // mock another method, or the same one again
+	name, cb := "Gamma", interface{}(vCbGamma)
+	if second == 1 {
+		name, cb = "Alpha", interface{}(vCbAlpha)
+	}
+	if verifBool("retained") {
+		im.Method(name).Apply(cb)
+	} else {
+		b.Interface(&vSvcA).Method(name).Apply(cb)
+	}
+	_, isImpl := vSvcA.(*vImpl)
+	verifAssert(vSvcA != nil && !isImpl, "C07.overwritten.variable-holds-the-mock-again")
+	if vSvcA == nil || isImpl {
+		return
+	}
+	x := verifInt("x")
+	f, recv, notImpl := vDispatch(unsafe.Pointer(&vSvcA), vSlotOf(t, "Alpha"), "C07.overwritten")
+	verifAssert(!notImpl && f != nil, "C07.overwritten.first-method-still-mocked")
+	if !notImpl && f != nil {
+		got, p := vCall07(f, recv, x)
+		verifAssert(!p && got == x+1, "C07.overwritten.first-method-reaches-replacement")
+	}
+	if second == 0 {
+		f2, recv2, notImpl2 := vDispatch(unsafe.Pointer(&vSvcA), vSlotOf(t, "Gamma"), "C07.overwritten")
+		verifAssert(!notImpl2 && f2 != nil, "C07.overwritten.second-method-mocked")
+		if !notImpl2 && f2 != nil {
+			got, p := vCall07(f2, recv2, x)
+			verifAssert(!p && got == x+3, "C07.overwritten.second-method-reaches-replacement")
+		}
+	}
+	verifReached("C07.overwritten")
+}
